@@ -222,7 +222,26 @@ def shard(idx, n, tier):
         "ports": st.lists(st.tuples(st.integers(1, 5), st.sampled_from(["in", "out", "inout", "port"])), min_size=1, max_size=4),
         "spicetype": st.sampled_from(["SUBCKT", "RESISTOR", "CAPACITOR", "INDUCTOR", "MOS", "DIODE", "BIPOLAR", "VSOURCE", "ISOURCE"]),
         "domain": st.sampled_from(["verif", "", "a.b"])})
-    pcase = st.fixed_dictionaries({"insts": st.lists(inst_cases, min_size=0, max_size=3),
+    def respell(ic, shift):
+        """A copy of an instance case in which every prefixed value is written with another prefix (same value)."""
+        from decimal import Decimal
+        out = json.loads(json.dumps(ic))
+        for k, v in out["params"].items():
+            if v.get("t") == "pref":
+                exps = c13.PREFIX_EXPS
+                i = exps.index(v["v"][1])
+                j = max(0, min(len(exps) - 1, i + shift))
+                d = Decimal(v["v"][0])
+                if d.is_finite() and len(d.as_tuple().digits) < 40:
+                    v["v"] = [str(d.scaleb(exps[i] - exps[j])), exps[j]]
+            elif v.get("t") == "int" and abs(int(v["v"])) < 10**15:
+                out["params"][k] = {"t": "pref", "v": [str(Decimal(int(v["v"])).scaleb(3)), -3]}
+        return out
+
+    twins = st.tuples(inst_cases, st.sampled_from([-2, -1, 1, 2])).map(lambda t: [t[0], respell(t[0], t[1])])
+    inst_lists = st.one_of(st.lists(inst_cases, min_size=0, max_size=3), twins,
+                           st.tuples(twins, inst_cases).map(lambda t: t[0] + [t[1]]))
+    pcase = st.fixed_dictionaries({"insts": inst_lists,
                                    "ext": st.lists(ext_shape, min_size=0, max_size=2),
                                    "literals": st.lists(st.sampled_from([".include 'x.sp'", "* comment", "", "a b c", ".param k=1"]), max_size=3)})
 
